@@ -25,6 +25,17 @@ path relative to the directory, so these override nothing and the built-in templ
 top-level templates (there a nested <Type>.j2 may well be the one picked for a type: the oracle does not care who wins,
 only that whatever influences the output is named).
 
+On top of both: the *directory location family* (256 configurations): WHERE the user directories (--templates,
+--support-templates, --lookup-dir, the root namespace) live and HOW they are written on the command line
+    relative placement of the two template folders {siblings, same folder, support below templates, templates below
+      support} x language x --generate-support                                                   (tpl = user+support)
+    spelling {absolute, relative, ./x/., trailing slash, ../x from a sub-directory as working directory, x/../x,
+      below a dot-folder (absolute / relative), through a symlinked parent folder (absolute / relative)}
+      x language x {--templates, --templates + --support-templates, --support-templates, built-in templates}
+(the other options rotate with the index; the dot-folder and the symlinked parent enclose ALL user directories, the
+spelling is applied to every one of them and to the output directory).  The oracles are the same; only the populated
+series is left out and the mutant runs of files that --list-inputs already names are run for a fixed eighth.
+
 Every configuration is driven through the real CLI entry (nunavut.cli.main, in-process) inside a private sandbox
 directory that encloses the DSDL roots, the user template directories, the working directory and the output directory.
 
@@ -81,6 +92,15 @@ LAYOUTS = ["top", "nested", "mixed"]
 NEST_DIRS = ["c", "cpp", "old", "old/deeper"]  # + the target language's own name (sibling folders per language)
 # (tpl, layout) pairs of the family; "support" = --support-templates without --templates (only in the family)
 FAMILY_KINDS = [("support", "top"), ("support", "nested"), ("support", "mixed"), ("user+support", "nested"), ("user+support", "mixed"), ("user", "mixed")]
+
+# Directory location family.  PLACES: relative placement of the --templates (T) and --support-templates (S) folders.
+PLACES = ["siblings", "same", "support_below_templates", "templates_below_support"]
+# SPELLS: how / where the user directories are named on the command line (see geometry()).
+SPELLS = ["abs", "rel", "dot", "trailing_slash", "dotdot", "dotdot_inside", "dotdir_abs", "dotdir_rel", "symlink_abs", "symlink_rel"]
+SPELL_TPL_KINDS = ["user", "user+support", "support", "builtin"]
+DOT_BASE = ".c08cfg"  # a "hidden" folder that encloses every user directory (dotdir_*)
+REAL_BASE, LINK_BASE = "real", "link"  # symlink_*: <sandbox>/link -> real, the directories are named through link
+TYPE_SER_RENAMED = "c08_type_serialization.j2"
 
 SLOT = "# C08-SLOT"
 MUT_FIELD = "uint8 c08_mutation_field"
@@ -199,18 +219,81 @@ def layout_of(c: dict) -> str:
 
 def cfg_id(c: dict) -> str:
     # configurations of the product keep the id they always had (slices, path styles and recorded cases depend on it)
-    return "/".join(f"{k}={c[k]}" for k in DIMS) + ("" if "layout" not in c else "/layout=" + c["layout"])
+    return (
+        "/".join(f"{k}={c[k]}" for k in DIMS) + ("" if "layout" not in c else "/layout=" + c["layout"])
+        + ("" if "spell" not in c else f"/place={c['place']}/spell={c['spell']}")
+    )
 
 
 def _non_default(c: dict) -> int:
     return (
         (c["support"] != "as-needed") + c["omit"] + c["nst"] + (c["tpl"] != "builtin") * (1 + (c["tpl"] == "user+support"))
         + (c["ext"] != "default") + (c["stem"] != "default") + (c["nsset"] != "flat") + (layout_of(c) != "top")
+        + (c.get("place", "siblings") != "siblings") + (c.get("spell", "abs") not in ("abs", "rel"))
     )
 
 
 def path_style(c: dict) -> str:
+    if "spell" in c:
+        return c["spell"]
     return "rel" if stable_hash("pathstyle:" + cfg_id(c)) % 2 else "abs"
+
+
+class Geometry(typing.NamedTuple):
+    """Where the user directories of a configuration live (paths relative to the sandbox, as they are reached: through
+    the symbolic link if there is one), the working directory, and the spelling function."""
+
+    base: str  # "" or the folder (with trailing slash) that encloses every user directory, as named
+    phys_base: str  # the same, as it exists on disk (differs for symlink_*)
+    tpl: str
+    stpl: str
+    cwd: str  # "" = the sandbox itself
+    spell: str
+
+    def at(self, x: str) -> str:
+        """a path of DSDL_SETS (roots/..., lookup/...) as reached"""
+        return self.base + x
+
+    def spelled(self, sb: pathlib.Path, x: str) -> str:
+        """x: path relative to the sandbox (as reached) -> command line argument"""
+        sp = self.spell
+        if sp in ("abs", "dotdir_abs", "symlink_abs"):
+            return str(sb / x)
+        if sp in ("rel", "dotdir_rel", "symlink_rel"):
+            return x
+        if sp == "dot":
+            return "./" + x + "/."
+        if sp == "trailing_slash":
+            return x + "/"
+        if sp == "dotdot":
+            return "../" + x  # the working directory is <sandbox>/work
+        if sp == "dotdot_inside":
+            return x + "/../" + x.rsplit("/", 1)[-1]
+        raise HarnessError(f"unknown spelling {sp!r}")
+
+
+def geometry(c: dict) -> Geometry:
+    spell = path_style(c)
+    place = c.get("place", "siblings")
+    base = phys = ""
+    if spell.startswith("dotdir_"):
+        base = phys = DOT_BASE + "/"
+    elif spell.startswith("symlink_"):
+        base, phys = LINK_BASE + "/", REAL_BASE + "/"
+    if place in ("siblings", "same", "support_below_templates"):
+        tpl = base + "tpl"
+        stpl = {"siblings": base + "stpl", "same": tpl, "support_below_templates": tpl + "/support"}[place]
+    elif place == "templates_below_support":
+        stpl = base + "stpl"
+        tpl = stpl + "/types"
+    else:
+        raise HarnessError(f"unknown placement {place!r}")
+    return Geometry(base, phys, tpl, stpl, "work" if spell == "dotdot" else "", spell)
+
+
+def cwd_of(c: dict, sb: pathlib.Path) -> pathlib.Path:
+    g = geometry(c)
+    return sb / g.cwd if g.cwd else sb
 
 
 def all_configs() -> typing.List[dict]:
@@ -242,6 +325,63 @@ def family_configs() -> typing.List[dict]:
                              nsset=NSSET[k % 3], layout=layout)
                     )
                     k += 1
+    return out
+
+
+def location_configs() -> typing.List[dict]:
+    """The directory location family: (a) placement of the two template folders x language x --generate-support with
+    the spelling rotating; (b) spelling x language x kind of user directories with --generate-support and the placement
+    rotating.  The namespace set rotates too (the lookup set brings a --lookup-dir)."""
+    out = []
+    k = 0
+    for place in PLACES:
+        for lang in LANGS:
+            for support in SUPPORT:
+                out.append(
+                    # (the pod flag only where it leaves something of the support folder to be rendered / is accepted)
+                    dict(lang=lang, support=support, omit=(k // 3) % 2 if support in ("never", "as-needed") else 0, nst=k % 2, tpl="user+support", ext=EXT[(k // 2) % 2],
+                         stem=STEM[(k // 4) % 2], nsset=NSSET[k % 3], place=place, spell=SPELLS[k % len(SPELLS)])
+                )
+                k += 1
+    for si, spell in enumerate(SPELLS):
+        for li, lang in enumerate(LANGS):
+            for ti, tpl in enumerate(SPELL_TPL_KINDS):
+                # --generate-support: all four values over the languages of a (spelling, kind) and over the spellings of
+                # a (language, kind); the other options by a fixed hash of the point
+                support = SUPPORT[(si + li + ti) % 4]
+                h = stable_hash(f"location:{spell}:{lang}:{tpl}")
+                place = PLACES[(si + li) % len(PLACES)] if tpl == "user+support" else "siblings"
+                c = dict(lang=lang, support=support, omit=h % 2 if support != "always" else 0, nst=(h >> 1) % 2, tpl=tpl, ext=EXT[(h >> 2) % 2],
+                         stem=STEM[(h >> 3) % 2], nsset=NSSET[(h >> 4) % 3] if tpl != "builtin" else "lookup", place=place, spell=spell)
+                if cfg_id(c) not in {cfg_id(x) for x in out}:
+                    out.append(c)
+    return out
+
+
+def location_core(fam: typing.List[dict]) -> typing.List[dict]:
+    """Quick core of the location family: every non-trivial placement with --generate-support only and as-needed (the
+    language rotates over the ones that have support templates), and every spelling once with a --templates directory
+    in a mode that generates types (the language rotates over all four)."""
+    out, ids = [], set()
+
+    def take(pred: typing.Callable[[dict], bool]) -> None:
+        for c in fam:
+            if pred(c) and cfg_id(c) not in ids:
+                ids.add(cfg_id(c))
+                out.append(c)
+                return
+        raise HarnessError("location family: no configuration for a core slot")
+
+    k = 0
+    with_support = [l for l in LANGS if l != "html"]
+    for place in PLACES[1:]:
+        for support in ("only", "as-needed"):
+            lang = with_support[k % len(with_support)]
+            take(lambda c: (c["place"], c["support"], c["lang"], c["tpl"]) == (place, support, lang, "user+support"))
+            k += 1
+    for i, spell in enumerate(SPELLS):
+        lang = LANGS[i % len(LANGS)]
+        take(lambda c: c["spell"] == spell and c["lang"] == lang and c["tpl"] in ("user", "user+support") and c["support"] != "only")
     return out
 
 
@@ -406,32 +546,62 @@ def build_sandbox(c: dict, sb: pathlib.Path) -> None:
     if sb.exists():
         shutil.rmtree(sb)
     sb.mkdir(parents=True)
-    gen.write_ns(sb, DSDL_SETS[c["nsset"]][2])
+    g = geometry(c)
+    if g.cwd:
+        (sb / g.cwd).mkdir()
+    if g.phys_base:
+        (sb / g.phys_base).mkdir()
+        if g.base != g.phys_base:
+            os.symlink(g.phys_base.rstrip("/"), sb / g.base.rstrip("/"))
+    gen.write_ns(sb, {g.phys_base + k: v for k, v in DSDL_SETS[c["nsset"]][2].items()})
     layout = layout_of(c)
     if layout not in LAYOUTS:
         raise HarnessError(f"unknown layout {layout!r}")
+    if (layout != "top" and (g.tpl, g.stpl) != ("tpl", "stpl")) or (c.get("place", "siblings") != "siblings" and c["tpl"] != "user+support"):
+        raise HarnessError("the layout family and the location family are not combined / a placement needs both folders")
+    tdir, sdir = sb / g.tpl, sb / g.stpl
     if c["tpl"] in ("user", "user+support"):
-        _copy_resources(_lang_dir(c["lang"]) / "templates", sb / "tpl")
+        _copy_resources(_lang_dir(c["lang"]) / "templates", tdir)
         if c["lang"] in ("c", "cpp"):
             # the built-in C/C++ template sets have no namespace template; a user set may have one
-            (sb / "tpl" / "Namespace.j2").write_text(NAMESPACE_TEMPLATE_FOR_C)
-        host = sb / "tpl" / TPL_HOST[c["lang"]]
+            (tdir / "Namespace.j2").write_text(NAMESPACE_TEMPLATE_FOR_C)
+        host = tdir / TPL_HOST[c["lang"]]
         host.write_text(host.read_text(encoding="utf-8") + TPL_SNIPPET, encoding="utf-8")
-        gen.write_ns(sb / "tpl", {k: v[0] for k, v in TPL_RESOURCES.items()})
-        (sb / "tpl" / "DelimitedType.j2").rename(sb / "tpl" / "c08_orig_DelimitedType.j2")
-        (sb / "tpl" / "DelimitedType.j2").write_text(SILENT_WRAPPER)
+        gen.write_ns(tdir, {k: v[0] for k, v in TPL_RESOURCES.items()})
+        (tdir / "DelimitedType.j2").rename(tdir / "c08_orig_DelimitedType.j2")
+        (tdir / "DelimitedType.j2").write_text(SILENT_WRAPPER)
         if layout != "top":
             # FIND_FIRST: a --templates directory has to be complete at its top level, so "nested" and "mixed" are the same
-            _scatter_same_named(sb / "tpl", c["lang"], keep_top=True)
+            _scatter_same_named(tdir, c["lang"], keep_top=True)
+        if tdir == sdir:
+            # one folder for both: a type template named like a support template (c, cpp: serialization.j2) gets
+            # another name, as a project that keeps both in one folder has to do
+            for name in support_names(c["lang"]):
+                if (tdir / name).exists():
+                    if name != "serialization.j2":
+                        raise HarnessError(f"unexpected name shared by templates/ and support/ of {c['lang']}: {name}")
+                    (tdir / name).rename(tdir / TYPE_SER_RENAMED)
+                    for t in sorted(tdir.glob("*.j2")):
+                        text = t.read_text(encoding="utf-8")
+                        if "'serialization.j2'" in text:
+                            t.write_text(text.replace("'serialization.j2'", "'" + TYPE_SER_RENAMED + "'"), encoding="utf-8")
     if c["tpl"] in ("support", "user+support"):
-        _copy_resources(_lang_dir(c["lang"]) / "support", sb / "stpl")
-        hosts = sorted((sb / "stpl").glob("*.j2"))
+        _copy_resources(_lang_dir(c["lang"]) / "support", sdir)
+        hosts = sorted(sdir / n for n in support_names(c["lang"]) if n.endswith(".j2"))
+        if hosts != sorted(p for p in sdir.glob("*.j2") if tdir != sdir or p.name in support_names(c["lang"])):
+            raise HarnessError("support template hosts are not the top-level templates of the support folder")
         for host in hosts:
             host.write_text(host.read_text(encoding="utf-8") + STPL_SNIPPET, encoding="utf-8")
         if hosts:
-            gen.write_ns(sb / "stpl", {k: v[0] for k, v in STPL_RESOURCES.items()})
+            gen.write_ns(sdir, {k: v[0] for k, v in STPL_RESOURCES.items()})
         if layout != "top":
-            _scatter_same_named(sb / "stpl", c["lang"], keep_top=(layout == "mixed"))
+            _scatter_same_named(sdir, c["lang"], keep_top=(layout == "mixed"))
+
+
+def support_names(lang: str) -> typing.List[str]:
+    """names (relative to the folder) of the files of the language's built-in support folder"""
+    d = _lang_dir(lang) / "support"
+    return sorted(str(p.relative_to(d)) for p in _resource_files(d))
 
 
 def nest_dirs(lang: str) -> typing.List[str]:
@@ -454,12 +624,13 @@ def _scatter_same_named(d: pathlib.Path, lang: str, keep_top: bool) -> None:
 
 
 def build_argv(c: dict, sb: pathlib.Path, flags: typing.Sequence[str]) -> typing.List[str]:
-    rel = path_style(c) == "rel"
+    g = geometry(c)
 
     def P(x: str) -> str:
-        return x if rel else str(sb / x)
+        return g.spelled(sb, x)
 
     root, lookups, _ = DSDL_SETS[c["nsset"]]
+    root, lookups = g.at(root), [g.at(l) for l in lookups]
     a = ["--target-language", c["lang"]]
     if c["lang"] in EXPERIMENTAL:
         a.append("--experimental-languages")
@@ -469,9 +640,9 @@ def build_argv(c: dict, sb: pathlib.Path, flags: typing.Sequence[str]) -> typing
     if c["nst"]:
         a.append("--generate-namespace-types")
     if c["tpl"] in ("user", "user+support"):
-        a += ["--templates", P("tpl")]
+        a += ["--templates", P(g.tpl)]
     if c["tpl"] in ("support", "user+support"):
-        a += ["--support-templates", P("stpl")]
+        a += ["--support-templates", P(g.stpl)]
     if c["ext"] != "default":
         a += ["--output-extension", c["ext"]]
     if c["stem"] != "default":
@@ -575,18 +746,37 @@ class _Subject(typing.NamedTuple):
 def _subjects(c: dict, sb: pathlib.Path) -> typing.List[_Subject]:
     subs = []
     root, _, files = DSDL_SETS[c["nsset"]]
+    g = geometry(c)
     for rel in files:
-        subs.append(_Subject("root_dsdl" if rel.startswith(root + "/") else "lookup_dsdl", "sandbox", sb / rel, rel))
+        subs.append(_Subject("root_dsdl" if rel.startswith(root + "/") else "lookup_dsdl", "sandbox", sb / g.phys_base / rel, rel))
     ld = _lang_dir(c["lang"])
-    if c["tpl"] in ("builtin", "support"):
+    # The labels are logical ("tpl/<path in the --templates folder>", "stpl/<path in the --support-templates folder>")
+    # wherever the folders are.  A file that is below both folders is named once, after the folder that is nearer to
+    # it; in a shared folder after the built-in set it was copied from.
+    tdir, sdir = (sb / g.tpl).resolve(), (sb / g.stpl).resolve()
+    has_t, has_s = c["tpl"] in ("user", "user+support"), c["tpl"] in ("support", "user+support")
+    snames = set(support_names(c["lang"])) | set(STPL_RESOURCES)
+
+    def is_support_file(p: pathlib.Path) -> bool:
+        if not has_s or sdir not in p.parents:
+            return False
+        if not has_t or tdir not in p.parents:
+            return True
+        if tdir == sdir:
+            return str(p.relative_to(sdir)) in snames
+        return tdir in sdir.parents  # support below templates: nearer; templates below support: the file is a template
+
+    if not has_t:
         for p in _resource_files(ld / "templates"):
             subs.append(_Subject("template", "builtin", p, str(p.relative_to(ld))))
     else:
-        for p in _resource_files(sb / "tpl"):
-            subs.append(_Subject("template", "sandbox", p, str(p.relative_to(sb))))
-    if c["tpl"] in ("support", "user+support"):
-        for p in _resource_files(sb / "stpl"):
-            subs.append(_Subject("support_template", "sandbox", p, str(p.relative_to(sb))))
+        for p in _resource_files(tdir):
+            if not is_support_file(p):
+                subs.append(_Subject("template", "sandbox", p, "tpl/" + str(p.relative_to(tdir))))
+    if has_s:
+        for p in _resource_files(sdir):
+            if is_support_file(p):
+                subs.append(_Subject("support_template", "sandbox", p, "stpl/" + str(p.relative_to(sdir))))
     for p in _resource_files(ld / "support"):
         subs.append(_Subject("support_template", "builtin", p, str(p.relative_to(ld))))
     return subs
@@ -615,13 +805,15 @@ def evaluate(c: dict, sb: pathlib.Path, only_subject: typing.Optional[str] = Non
     build_sandbox(c, sb)
     style = path_style(c)
     count("pathstyle_" + style)
+    cwd = cwd_of(c, sb)
+    in_loc = "spell" in c  # the directory location family
 
     def series(state: str) -> typing.Tuple[typing.Dict[str, Run], typing.List[typing.Tuple[str, str, typing.List[str]]]]:
         runs, diffs = {}, []
         _age(sb)
         before = _snap(c, sb)
         for mode, flags in MODES:
-            r = run_cli(build_argv(c, sb, flags), sb)
+            r = run_cli(build_argv(c, sb, flags), cwd)
             count("cli_runs")
             runs[mode] = r
             after = _snap(c, sb)
@@ -633,7 +825,7 @@ def evaluate(c: dict, sb: pathlib.Path, only_subject: typing.Optional[str] = Non
                     build_sandbox(c, sb)
                 else:
                     build_sandbox(c, sb)
-                    rr = run_cli(build_argv(c, sb, []), sb)
+                    rr = run_cli(build_argv(c, sb, []), cwd)
                     if rr.rc != 0:
                         raise HarnessError(f"{cid}: cannot re-create the populated state: {rr.exc or rr.err[-300:]}")
                 _age(sb)
@@ -645,7 +837,7 @@ def evaluate(c: dict, sb: pathlib.Path, only_subject: typing.Optional[str] = Non
     # ---- series 1: output directory absent
     runs0, diffs = series("absent")
     pre = _files(sb)
-    real = run_cli(build_argv(c, sb, []), sb)
+    real = run_cli(build_argv(c, sb, []), cwd)
     count("cli_runs")
     if real.rc != 0:
         if real.rc == 2 and real.exc is None and "error:" in real.err:
@@ -694,7 +886,7 @@ def evaluate(c: dict, sb: pathlib.Path, only_subject: typing.Optional[str] = Non
                 mode="list-outputs", outdir=state,
             )
             return
-        listed = _parse_list(r.out, sb)
+        listed = _parse_list(r.out, cwd)
         if len(listed) != len(set(listed)):
             count("list_outputs_has_duplicates")
         for p in sorted(set(listed) - created):
@@ -723,7 +915,7 @@ def evaluate(c: dict, sb: pathlib.Path, only_subject: typing.Optional[str] = Non
             mode="list-inputs", outdir="absent",
         )
     else:
-        listed_inputs = set(_parse_list(li.out, sb))
+        listed_inputs = set(_parse_list(li.out, cwd))
     for mode in ("list-configuration", "dry-run"):
         if runs0[mode].rc != 0:
             count("mode_fails_although_generation_succeeds:" + mode)
@@ -732,7 +924,7 @@ def evaluate(c: dict, sb: pathlib.Path, only_subject: typing.Optional[str] = Non
     # means nothing
     _MEMO[0] = "use"
     shutil.rmtree(sb / "out", ignore_errors=True)
-    again = run_cli(build_argv(c, sb, []), sb)
+    again = run_cli(build_argv(c, sb, []), cwd)
     count("cli_runs")
     post2 = _files(sb)
     base2 = {p: h for p, h in post2.items() if p not in pre}
@@ -744,13 +936,14 @@ def evaluate(c: dict, sb: pathlib.Path, only_subject: typing.Optional[str] = Non
         )
 
     # ---- series 2: output directory populated (files are read-only as the real run leaves them)
-    runs1, diffs1 = series("populated")
-    report_nowrite(diffs1)
-    check_outputs(runs1["list-outputs"], "populated")
-    if _files(sb) != post2:
-        # series() restores the state after a difference; anything else is the harness' fault
-        if not diffs1:
-            raise HarnessError(f"{cid}: sandbox changed during the populated series without a recorded difference")
+    if not in_loc:
+        runs1, diffs1 = series("populated")
+        report_nowrite(diffs1)
+        check_outputs(runs1["list-outputs"], "populated")
+        if _files(sb) != post2:
+            # series() restores the state after a difference; anything else is the harness' fault
+            if not diffs1:
+                raise HarnessError(f"{cid}: sandbox changed during the populated series without a recorded difference")
 
     # ---- oracle 3: influence closure
     loaded = real.loads
@@ -758,7 +951,7 @@ def evaluate(c: dict, sb: pathlib.Path, only_subject: typing.Optional[str] = Non
 
     def regenerate() -> typing.Optional[typing.Dict[str, str]]:
         shutil.rmtree(sb / "out", ignore_errors=True)
-        r = run_cli(build_argv(c, sb, []), sb)
+        r = run_cli(build_argv(c, sb, []), cwd)
         count("cli_runs")
         count("mutant_runs")
         if r.rc != 0:
@@ -792,6 +985,7 @@ def evaluate(c: dict, sb: pathlib.Path, only_subject: typing.Optional[str] = Non
             count("never_loaded_templates_mutated_together")
 
     layout = layout_of(c)
+    power_labels = {"tpl/" + TPL_HOST[c["lang"]]} | {"stpl/" + n for n in support_names(c["lang"]) if n.endswith(".j2")}
 
     def placement(s: _Subject) -> typing.Optional[str]:
         """Where a template sits relative to the names jinja resolves (layout family only; from the way the sandbox was
@@ -834,6 +1028,12 @@ def evaluate(c: dict, sb: pathlib.Path, only_subject: typing.Optional[str] = Non
             if stable_hash("power:" + cid + s.label) % 4:
                 count("listed_subject_mutant_skipped_in_layout_family")
                 continue
+        if in_loc and li.rc == 0 and key in listed_inputs and s.label not in power_labels and stable_hash("power:" + cid + s.label) % 8:
+            # Location family: a file that is named cannot violate oracle 3; a fixed eighth of them is mutated all the
+            # same to show that the files of a folder at this place / spelled this way are the ones rendered; the
+            # template every type goes through and the support templates always are.
+            count("listed_subject_mutant_skipped_in_location_family")
+            continue
         if s.what.endswith("_dsdl"):
             original = s.path.read_text()
             if SLOT not in original:
@@ -880,6 +1080,9 @@ def evaluate(c: dict, sb: pathlib.Path, only_subject: typing.Optional[str] = Non
             continue
         res["influences"] += 1
         count("influence_shown:" + s.what + ":" + s.origin)
+        if in_loc and s.origin == "sandbox":
+            count(f"location:spell={style}:influence:{s.what}")
+            count(f"location:place={c['place']}:influence:{s.what}")
         if place:
             count(f"layout:{layout}:{place}:influence")
         if s.label in REACH:
@@ -898,6 +1101,10 @@ def evaluate(c: dict, sb: pathlib.Path, only_subject: typing.Optional[str] = Non
             if place:
                 sig["user_dir_layout"] = layout
                 sig["placement"] = place
+            if in_loc and s.origin == "sandbox":
+                # what of the location matters is not known: both features are part of the classification
+                sig["user_dir_spelling"] = style
+                sig["user_dirs_relative_placement"] = c["place"]
         report(
             sig,
             f"{s.label} changes the generated output ({influence}) but --list-inputs does not name it  [{cid}]",
@@ -965,10 +1172,15 @@ def run(ctx: Ctx) -> int:
     fam_core = family_core(family)
     fam_core_ids = {cfg_id(c) for c in fam_core}
     chosen += fam_core + [c for c in family if cfg_id(c) not in fam_core_ids and ctx.in_slice(cfg_id(c))]
+    # the directory location family (same rule again)
+    loc = location_configs()
+    loc_core = location_core(loc)
+    loc_core_ids = {cfg_id(c) for c in loc_core}
+    chosen += loc_core + [c for c in loc if cfg_id(c) not in loc_core_ids and ctx.in_slice(cfg_id(c))]
     if len({cfg_id(c) for c in chosen}) != len(chosen):
         raise HarnessError("configuration ids are not unique")
-    space = space + family
-    core = core + fam_core
+    space = space + family + loc
+    core = core + fam_core + loc_core
     # longest first (py/html and user template sets have the most subjects): better pool balance, same set
     chosen.sort(key=lambda c: (-(c["tpl"] != "builtin") - (c["lang"] in ("html", "cpp")), cfg_id(c)))
     jobs = [(i, c, str(ctx.scratch)) for i, c in enumerate(chosen)]
@@ -981,6 +1193,8 @@ def run(ctx: Ctx) -> int:
     nontrivial = 0
     value_seen: typing.Dict[str, set] = {d: set() for d in DIMS}
     kinds_seen: typing.Set[typing.Tuple[str, str]] = set()
+    spells_seen: typing.Set[str] = set()
+    places_seen: typing.Set[typing.Tuple[str, str]] = set()
     fail_reasons: typing.Dict[str, int] = {}
     best: typing.Dict[str, typing.Tuple[tuple, typing.Any, int]] = {}
     for r in results:
@@ -1001,6 +1215,9 @@ def run(ctx: Ctx) -> int:
             value_seen[d].add(r["cfg"][d])
         if "layout" in r["cfg"]:
             kinds_seen.add((r["cfg"]["tpl"], r["cfg"]["layout"]))
+        if "spell" in r["cfg"]:
+            spells_seen.add(r["cfg"]["spell"])
+            places_seen.add((r["cfg"]["place"], r["cfg"]["support"]))
         if r["influences"] > 0:
             nontrivial += 1
         # the case kept per signature is the one in the most ordinary configuration (fewest options off default)
@@ -1045,6 +1262,19 @@ def run(ctx: Ctx) -> int:
         missing_kinds = [k for k in FAMILY_KINDS if k not in kinds_seen]
         if missing_kinds:
             raise HarnessError(f"vacuous exploration: no successful generation with the directory layouts {missing_kinds}")
+        # Location family: every spelling and every placement (the non-trivial ones both with --generate-support only
+        # and with a mode that generates types) must have generated, and for each of them a mutation of a file of the
+        # user template folders must have changed the output (the folder that was named is the folder that is used).
+        missing_loc = [sp for sp in SPELLS if sp not in spells_seen] + [
+            (pl, su) for pl in PLACES for su in ("only", "as-needed") if (pl, su) not in places_seen and pl != "siblings"
+        ]
+        if missing_loc:
+            raise HarnessError(f"vacuous exploration: no successful generation with the directory locations {missing_loc}")
+        for need in [f"location:spell={sp}:influence:template" for sp in SPELLS] + [
+            f"location:place={pl}:influence:{w}" for pl in PLACES[1:] for w in ("template", "support_template")
+        ]:
+            if ctx.stats.get(need, 0) == 0:
+                raise HarnessError(f"vacuous exploration: the directory location family never showed {need}")
         # The layout family means something only if (a) with nothing but same-named files at other depths in the
         # user support directory the BUILT-IN support template was the one rendered (its mutation changed the output),
         # (b) with a top-level file next to them that file was, and (c) the copies of a support directory never were.
@@ -1095,6 +1325,9 @@ def run(ctx: Ctx) -> int:
         f"templates x extension x namespace-stem x namespace-set plus the {len(family)} points of the directory layout family "
         f"lang x generate-support x pod x {{support dir: top/nested/mixed; templates+support dirs: nested/mixed; templates "
         f"dir: mixed}} with same-named copies under {'/ '.join(NEST_DIRS)}/ <lang>/ "
+        f"plus the {len(loc)} points of the directory location family {{placement of --templates / --support-templates: "
+        f"{', '.join(PLACES)}}} x lang x generate-support and {{spelling of every user directory: {', '.join(SPELLS)}}} x lang x "
+        f"{{{', '.join(SPELL_TPL_KINDS)}}} (no populated series there) "
         f"(core {len(core)} + seed slice); per point: 4 no-write "
         "modes x {outdir absent, populated}, 2 real runs, one mutation run per DSDL file and one or two per "
         "template/support file",
@@ -1115,6 +1348,9 @@ def run(ctx: Ctx) -> int:
             "directory layouts: same-named copies at depth 1 and 2 in five folders and two near-miss names per template stand "
             "for all placements of a file that does not override; in the layout family the options generate-namespace-types, "
             "output-extension, namespace-stem and the namespace set rotate with the index instead of being multiplied",
+            "directory locations: one dot-folder / one symlinked folder enclosing all user directories, one '..' and one '.' "
+            "form stand for all such spellings; the output directory is spelled the same way but always lives at <sandbox>/out; "
+            "in the location family the populated series is not run and only a fixed eighth of the already named files is mutated",
             "wall clock replaced by a constant (nunavut.jinja.datetime, gzip.time); caches reset before every CLI call",
         ],
         min_outcomes=("distinct_outcomes", 12),
